@@ -98,13 +98,11 @@ func (r *runner) checkInv(line string, s *snapshot) {
 		if (s.hc[j] == '1') != want {
 			r.fail("index-conflicts", "after %s: HasConflicts(%d)=%c, expected %v from the listed transactions %v", line, d.idx, s.hc[j], want, s.list)
 		}
-		data, ok := r.mp.TryGetData(d.tx.Hash())
-		if ok != in[d.idx] || (ok && data != any(d.idx)) {
-			r.fail("index-data", "after %s: TryGetData(%d)=(%v,%v), listed=%v", line, d.idx, data, ok, in[d.idx])
+		if _, ok := s.data[d.idx]; ok != in[d.idx] {
+			r.fail("index-data", "after %s: TryGetData(%d) found=%v, listed=%v", line, d.idx, ok, in[d.idx])
 		}
-		tv, ok := r.mp.TryGetValue(d.tx.Hash())
-		if ok != in[d.idx] || (ok && tv != d.tx) {
-			r.fail("index-value", "after %s: TryGetValue(%d) ok=%v, listed=%v", line, d.idx, ok, in[d.idx])
+		if (s.gv[j] == '1') != in[d.idx] {
+			r.fail("index-value", "after %s: TryGetValue(%d) returns the transaction: %c, listed=%v", line, d.idx, s.gv[j], in[d.idx])
 		}
 	}
 	// solvency per payer against the stub's balances
@@ -150,6 +148,9 @@ func (r *runner) checkAdd(line string, d *txDef, err error, before, after *snaps
 	if err != nil {
 		if before.String() != after.String() || (!r.sc.drift && before.ver != "" && before.ver != after.ver) {
 			r.fail("failed-add-changed", "%s returned %v but the pool changed: %s -> %s", line, err, before, after)
+		}
+		if len(after.events) != 0 {
+			r.fail("failed-add-changed", "%s returned %v but events were sent: %s", line, err, eventsString(after.events, false))
 		}
 		return
 	}
